@@ -23,7 +23,7 @@ RULE = ("object kinds {TimeAxis, FrequencyAxis, ValueAxis, DFunction, Operator, 
 ASSUMPTIONS = ["basis-managed objects are read (hence transformed) inside a basis context before they are saved there: the transformation is lazy",
                "text formats are compared to 1e-15 relative, binary formats exactly; a real axis stored next to complex data may come back as complex numbers with zero imaginary part",
                "objects saved inside a basis context after having been transformed there: see known finding"]
-MIN_NONTRIVIAL = {"quick": 250, "thorough": 600}
+MIN_NONTRIVIAL = {"quick": 250, "thorough": 350}
 REQUIRED_CLAUSES = ["object-roundtrip", "data-roundtrip"]
 TIMEOUT = {"quick": 900, "thorough": 3400}
 
